@@ -154,9 +154,27 @@ type boundedStore struct {
 	factstore.FactStore
 	created *int
 	bound   int
+	// locking: the wrapped store runs GetFacts callbacks under its read lock (ConcurrentFactStore); a write
+	// from inside such a callback would block for ever and is reported (panic(Reentrant)) instead.
+	locking bool
+	depth   *int
+}
+
+// Reentrant is the private panic value for a write to a locking store from inside its own GetFacts callback.
+type Reentrant struct{ Op string }
+
+func (b boundedStore) GetFacts(a ast.Atom, fn func(ast.Atom) error) error {
+	return b.FactStore.GetFacts(a, func(x ast.Atom) error {
+		*b.depth++
+		defer func() { *b.depth-- }()
+		return fn(x)
+	})
 }
 
 func (b boundedStore) Add(a ast.Atom) bool {
+	if b.locking && *b.depth > 0 {
+		panic(Reentrant{"Add"})
+	}
 	ok := b.FactStore.Add(a)
 	if ok && !a.Predicate.IsInternalPredicate() {
 		*b.created++
@@ -179,8 +197,9 @@ func (b boundedStore) Merge(s factstore.ReadOnlyFactStore) {
 // Bounded wraps store so that the evaluation is aborted (panic(Overrun)) once more than bound distinct facts of
 // non-internal predicates were added successfully.
 func Bounded(store factstore.FactStore, bound int) factstore.FactStore {
-	n := 0
-	return boundedStore{FactStore: store, created: &n, bound: bound}
+	n, d := 0, 0
+	_, locking := store.(factstore.ConcurrentFactStore)
+	return boundedStore{FactStore: store, created: &n, bound: bound, locking: locking, depth: &d}
 }
 
 // Run executes parse -> analysis -> EvalProgram on a store of the given kind, pre-loaded with extra.
@@ -209,6 +228,10 @@ func RunBounded(text string, extra []Fact, storeKind string, bound int, opts ...
 			if r := recover(); r != nil {
 				if o, ok := r.(Overrun); ok {
 					out.Overrun = &o
+					return
+				}
+				if re, ok := r.(Reentrant); ok {
+					out.Panic, out.PanicStage = "the engine calls "+re.Op+" on a ConcurrentFactStore from inside the store's own GetFacts callback: self-deadlock (stopped by the harness)", "eval"
 					return
 				}
 				out.Panic, out.PanicStage = fmt.Sprint(r), "eval"
